@@ -26,7 +26,11 @@ type Expr struct {
 	Callee *ssa.Function // for call: resolved in-scope callee (nil for external / invoke-multi)
 	Ext    *types.Func   // for call: external callee object / interface method
 	Call   ssa.CallInstruction
-	str    string
+	// Eq: for an empty value (zero / const ""), values known to be equal to it where it was produced — a function that
+	// returns early `if len(x) == 0` leaves a field empty exactly when x is empty, so the empty field still "is" x.
+	// Not part of the term (not walked, not printed); instantiated by Subst.
+	Eq  []*Expr
+	str string
 }
 
 type exprKey struct {
@@ -398,12 +402,30 @@ func (b *builder) build(v ssa.Value) *Expr {
 func mkPhi(alts []*Expr) *Expr {
 	seen := map[string]bool{}
 	var out []*Expr
+	at := map[string]int{}
 	for _, a := range alts {
 		for _, aa := range a.Alts() {
 			k := aa.String()
 			if !seen[k] {
 				seen[k] = true
+				at[k] = len(out)
 				out = append(out, aa)
+			} else if i := at[k]; len(out[i].Eq) > 0 || len(aa.Eq) > 0 {
+				// the same empty value arriving two ways: only what is known equal to it on both remains known
+				var keep []*Expr
+				for _, x := range out[i].Eq {
+					for _, y := range aa.Eq {
+						if x.String() == y.String() {
+							keep = append(keep, x)
+							break
+						}
+					}
+				}
+				if len(keep) != len(out[i].Eq) {
+					ne := *out[i]
+					ne.Eq = keep
+					out[i] = &ne
+				}
 			}
 		}
 	}
@@ -1107,8 +1129,9 @@ func (w *World) Summary(fn *ssa.Function) *Expr {
 			if failing[r] {
 				continue
 			}
+			empties := w.emptyAt(fn, r, b)
 			for i, v := range r.Results {
-				alts[i] = append(alts[i], b.expr(v))
+				alts[i] = append(alts[i], annotateEmpty(b.expr(v), empties))
 			}
 		}
 	}
@@ -1143,6 +1166,14 @@ func Subst(e *Expr, params map[string]*Expr) *Expr {
 		return e
 	}
 	if len(e.Args) == 0 {
+		if len(e.Eq) > 0 {
+			ne := *e
+			ne.Eq = make([]*Expr, len(e.Eq))
+			for i, q := range e.Eq {
+				ne.Eq[i] = Subst(q, params)
+			}
+			return &ne
+		}
 		return e
 	}
 	changed := false
@@ -1322,9 +1353,10 @@ func (w *World) inlinePlumbing(e *Expr) *Expr {
 		bb := w.builderFor(fn)
 		alts := make([][]*Expr, res.Len())
 		for _, r := range w.SuccessReturns(fn) {
+			empties := w.emptyAt(fn, r, bb)
 			for i, v := range r.Results {
 				if !keep[i] {
-					alts[i] = append(alts[i], bb.expr(v))
+					alts[i] = append(alts[i], annotateEmpty(bb.expr(v), empties))
 				}
 			}
 		}
@@ -2254,3 +2286,124 @@ func EqualExpr(a, b *Expr) bool {
 	}
 	return true
 }
+
+// emptyAt: the string values known to be empty at return r — every path to r passes the empty side of a test
+// `len(x) == 0` / `x == ""` (in any of its spellings).
+func (w *World) emptyAt(fn *ssa.Function, r *ssa.Return, b *builder) []*Expr {
+	var out []*Expr
+	for _, blk := range fn.Blocks {
+		if len(blk.Instrs) == 0 {
+			continue
+		}
+		iff, ok := blk.Instrs[len(blk.Instrs)-1].(*ssa.If)
+		if !ok {
+			continue
+		}
+		cond := iff.Cond
+		neg := false
+		for {
+			if u, ok := cond.(*ssa.UnOp); ok && u.Op == token.NOT {
+				cond, neg = u.X, !neg
+				continue
+			}
+			break
+		}
+		bo, ok := cond.(*ssa.BinOp)
+		if !ok {
+			continue
+		}
+		// subject: the string whose emptiness is tested; emptyWhen: the truth value of the comparison that means "empty"
+		var subject ssa.Value
+		emptyWhen := true
+		isLen := func(v ssa.Value) ssa.Value {
+			c, ok := v.(*ssa.Call)
+			if !ok {
+				return nil
+			}
+			if bi, ok := c.Call.Value.(*ssa.Builtin); ok && bi.Name() == "len" && len(c.Call.Args) == 1 {
+				return c.Call.Args[0]
+			}
+			return nil
+		}
+		constIs := func(v ssa.Value, s string) bool {
+			c, ok := v.(*ssa.Const)
+			return ok && c.Value != nil && c.Value.ExactString() == s
+		}
+		x, y := bo.X, bo.Y
+		switch {
+		case isLen(x) != nil && constIs(y, "0"):
+			subject = isLen(x)
+			switch bo.Op {
+			case token.EQL, token.LEQ:
+			case token.NEQ, token.GTR:
+				emptyWhen = false
+			default:
+				subject = nil
+			}
+		case isLen(x) != nil && constIs(y, "1") && (bo.Op == token.LSS || bo.Op == token.GEQ):
+			subject = isLen(x)
+			emptyWhen = bo.Op == token.LSS
+		case constIs(y, `""`) && (bo.Op == token.EQL || bo.Op == token.NEQ):
+			subject = x
+			emptyWhen = bo.Op == token.EQL
+		case constIs(x, `""`) && (bo.Op == token.EQL || bo.Op == token.NEQ):
+			subject = y
+			emptyWhen = bo.Op == token.EQL
+		}
+		if subject == nil {
+			continue
+		}
+		if bt, ok := subject.Type().Underlying().(*types.Basic); !ok || bt.Kind() != types.String {
+			continue
+		}
+		if neg {
+			emptyWhen = !emptyWhen
+		}
+		// the successor taken when the subject is NOT empty: with it deleted, is r still reachable?
+		nonEmptySucc := 0
+		if emptyWhen {
+			nonEmptySucc = 1
+		}
+		// every path to r passes the empty side <=> deleting the empty side's edge makes r unreachable
+		emptySucc := 1 - nonEmptySucc
+		if !Reaches(fn, r, Cut{Edges: map[[2]int]bool{{blk.Index, emptySucc}: true}}) {
+			out = append(out, b.expr(subject))
+		}
+	}
+	return out
+}
+
+// annotateEmpty marks the empty string leaves of e (zero:string, "") with the values known empty where e was produced.
+func annotateEmpty(e *Expr, empties []*Expr) *Expr {
+	if e == nil || len(empties) == 0 {
+		return e
+	}
+	if len(e.Args) == 0 {
+		if e.Op == "zero" && e.Name == "string" || e.Op == "const" && e.Name == `""` {
+			ne := *e
+			ne.Eq = empties
+			return &ne
+		}
+		return e
+	}
+	changed := false
+	args := make([]*Expr, len(e.Args))
+	for i, a := range e.Args {
+		args[i] = annotateEmpty(a, empties)
+		if args[i] != a {
+			changed = true
+		}
+	}
+	if !changed {
+		return e
+	}
+	ne := *e
+	ne.Args = args
+	return &ne
+}
+
+// MkPhi merges alternatives into one expression (duplicates dropped, nested alternatives flattened).
+func MkPhi(alts []*Expr) *Expr { return mkPhi(alts) }
+
+// FieldOf projects a field out of a record expression.
+func FieldOf(base *Expr, name string) *Expr { return fieldOf(base, name) }
